@@ -896,6 +896,67 @@ SUFFIXES = ['.py', '.py', '.py', '.pyi', '.pyc', '.so', '.cpython-312-x86_64-lin
             '.py.py', '.PY']
 
 
+def _two_projects_task(t):
+    """ONE environment (one helper process), two projects one after the other: project A has an explicit sys_path
+    and analyses an import that does not exist; project B then uses the environment's own sys.path.  What B resolves
+    must be what `python` started in B resolves: nothing of A's roots may have stayed behind in the helper."""
+    import jedi
+    from jedi.api.environment import create_environment
+    base = t['base']
+    ra, rb = os.path.join(base, 'ra'), os.path.join(base, 'rb')
+    for d in (ra, rb):
+        os.makedirs(d, exist_ok=True)
+    with open(os.path.join(ra, t['name'] + '.py'), 'w') as f:
+        f.write('zq_value = 1\n')
+    with open(os.path.join(ra, 'zq_present_%d.py' % t['k']), 'w') as f:
+        f.write('zq_other = 1\n')
+    code_b = 'import %s\n' % t['name']
+    with open(os.path.join(rb, 'main_b.py'), 'w') as f:
+        f.write(code_b)
+    env = create_environment(common.PY, safe=False)
+    out = {}
+    try:
+        pa = jedi.Project(ra, sys_path=[ra], smart_sys_path=False)
+        src_a = 'import zq_present_%d\nimport zq_no_such_module_%d\n' % (t['k'], t['k'])
+        sa = jedi.Script(src_a, path=os.path.join(ra, 'main_a.py'), project=pa, environment=env)
+        out['a_found'] = [str(d.module_path) for d in sa.infer(1, 8)]
+        if t['order'] == 'goto':
+            out['a_missing'] = [str(d.module_path) for d in sa.goto(2, 8, follow_imports=True) if str(d.module_path) != os.path.join(ra, 'main_a.py')]
+        else:
+            out['a_missing'] = [str(d.module_path) for d in sa.infer(2, 8)]
+        pb = jedi.Project(rb) if t['k'] % 3 else jedi.Project(rb, smart_sys_path=False)
+        sb = jedi.Script(code_b, path=os.path.join(rb, 'main_b.py'), project=pb, environment=env)
+        out['b'] = [str(d.module_path) for d in sb.infer(1, 8)]
+        out['b_goto'] = [str(d.module_path) for d in sb.goto(1, 8, follow_imports=True)
+                         if d.module_path is not None and str(d.module_path) != os.path.join(rb, 'main_b.py')]
+    except Exception as e:
+        out['exc'] = common.exc_sig(e)
+    # CPython started in rb with its own sys.path
+    p = subprocess.run([common.PY, '-c', 'import importlib.util as u; print(u.find_spec(%r) is not None)' % t['name']],
+                       cwd=rb, capture_output=True, text=True, env=common.jedi_env())
+    out['python_finds'] = p.stdout.strip() == 'True'
+    return out
+
+
+def stream_two_projects(ctx):
+    tasks = [dict(k=k, base=os.path.join(ctx.tmp, 'twoproj%d' % k), name='zq_only_in_ra_%d' % k, order=('goto' if k % 2 else 'infer'))
+             for k in range(ctx.n(6, 30))]
+    res = common.pmap(_two_projects_task, tasks, chunksize=1)
+    for t, r in zip(tasks, res):
+        ctx.count('two-projects', t['k'], nontrivial=True)
+        if 'exc' in r:
+            ctx.deviation(dict(stream='two-projects', exc=r['exc']['exc'], site=r['exc']['site']), dict(task=t, error=r['exc']),
+                          'the two-project sequence raised')
+            continue
+        found_by_jedi = bool([x for x in r['b'] + r['b_goto'] if x != 'None'])
+        if found_by_jedi != r['python_finds'] or not r['a_found'] or r['a_missing']:
+            ctx.deviation(dict(stream='two-projects', cls='resolution-differs-from-python-after-another-project'),
+                          dict(task=t, observed=r),
+                          'project B (environment sys.path) resolves `import %s` to %r after project A (explicit sys_path=[ra]) was analysed '
+                          'in the same environment; CPython started in B %s it' % (t['name'], r['b'], 'finds' if r['python_finds'] else 'does not find'))
+    ctx.stat('two_project_sequences', len(tasks))
+
+
 def stream_dotted(ctx):
     from jedi.inference.sys_path import transform_path_to_dotted
     from pathlib import Path, PurePosixPath
@@ -1003,7 +1064,7 @@ def run(ctx):
         'relative imports beyond the top-level package: CPython raises ImportError, jedi applies a directory heuristic; '
         'only the model<->jedi correspondence is checked there (no claim in the property)',
         'star-import probes avoid names bound by the analysed file itself or sub-modules of its own package folder']
-    for f in (stream_dotted, stream_trees):
+    for f in (stream_dotted, stream_trees, stream_two_projects):
         t = time.time()
         f(ctx)
         ctx.stat('wall_' + f.__name__, round(time.time() - t, 1))
